@@ -386,12 +386,18 @@ impl Interpreter {
             OpCodes::OP_LSHIFT => {
                 let a = state.stack.pop_bigint()?;
                 let b = state.stack.pop_number()?;
+                if b < 0 {
+                    return Err(InterpreterError::InvalidStackOperation("OP_LSHIFT cannot shift by a negative amount"));
+                }
 
                 state.stack.push_bigint(a << b)?;
             }
             OpCodes::OP_RSHIFT => {
                 let a = state.stack.pop_bigint()?;
                 let b = state.stack.pop_number()?;
+                if b < 0 {
+                    return Err(InterpreterError::InvalidStackOperation("OP_RSHIFT cannot shift by a negative amount"));
+                }
 
                 state.stack.push_bigint(a >> b)?;
             }
